@@ -107,7 +107,11 @@ def families_for(want, tier):
         fams.append(SchedFamily(NestedSpace1(3), 'G', want, unroll=True))
         fams.append(SchedFamily(NestedSpace1(2, reps=(1, 2, 3), bodies=N1_BODIES + N1_BODIES_EXTRA), 'H', want, unroll=True))
         fams.append(SchedFamily(NestedSpace2(2), 'G', want, unroll=False))
+        fams.append(SchedFamily(FlatSpace(2), 'Z', want, unroll=False))
+        fams.append(SchedFamily(NestedSpace1(2), 'Z', want, unroll=True))
     else:
+        fams.append(SchedFamily(FlatSpace(3), 'Z', want, unroll=False))
+        fams.append(SchedFamily(NestedSpace1(3), 'Z', want, unroll=True))
         # F(4) has 1.4e7 programs: C01 runs it under two configurations, C02/C04 under the generic one
         fams.append(SchedFamily(NestedSpace2(2), 'G', want, unroll=True))
         fams.append(SchedFamily(FlatSpace(4), 'G', want, unroll=False))
